@@ -24,7 +24,7 @@ WFInit ==
                   [dst |-> b.recvs[j].rank, src |-> b.recvs[j].src, tag |-> b.recvs[j].sym,
                    \* every extracted end is a distinct node of its DAG
                    use |-> "out", v |-> j, on |-> TRUE]]
-    /\ stored = <<>> /\ staple = <<>> /\ faults = <<>>
+    /\ stored = <<>> /\ staple = <<>> /\ eo = <<>> /\ faults = <<>>
     /\ phase = "check" /\ cur = k
 WFNext == UNCHANGED vars
 
